@@ -303,8 +303,9 @@ def r5(ctx):
     ctx.check("C14.R5", bool(pm), key(f_run, "promotion-polled"), site(f_run), "the main loop never checks for promotion", "maybe_promote_master() every iteration")
     fr = ctx.fn(repo.func(ARB + ".reap_workers"))
     gr = fr.cfg
-    rs = [s for s in gr.stmts(ast.Assign) if any(tail(t) == "reexec_pid" for t in s.ast.targets) and const(s.ast.value, NO) == 0]
-    ctx.check("C14.R5", bool(rs), key(fr, "reexec-reset"), site(fr), "reexec_pid is never reset when the new master exits: after a failed upgrade USR2 would be ignored forever and stop() would never unlink", "reexec_pid = 0 when that child is reaped")
+    rs = [s for s in gr.stmts(ast.Assign) if any(isinstance(t, ast.Attribute) and t.attr == "reexec_pid" for t in s.ast.targets) and const(s.ast.value, NO) == 0]
+    from .c03 import reap_state
+    reap_state(ctx, "C14.R5")
     wpn = [n for c in calls_to(repo, fr, "os.waitpid") for n in nodes_with(fr, c)]
     p = gr.path(gr.entry, [gr.exit], without_nodes=wpn, follow_exc=False)
     ctx.check("C14.R5", bool(wpn) and p is None, key(fr, "new-master-always-reaped"), site(fr),
